@@ -31,6 +31,8 @@ package pipeline
 // assumed: every controller node of the graph carries the annotation holder the controller visitor gave it
 //@ func GleecePipeline.getControllers trusted
 //@ ensures forall(k, 0, len(result), result[k].Struct.Annotations != nil)
+// ... and every receiver the one the route visitor gave it
+//@ ensures forall(k, 0, len(result), forall(j, 0, len(result[k].Receivers), result[k].Receivers[j].Annotations != nil))
 //@ func GleecePipeline.getReductionContext trusted
 
 // Reduction hands out import serials on first use, so the order in which controllers are reduced is part of the
@@ -41,7 +43,9 @@ package pipeline
 //@ ensures? forall(i, 0, len(s), result[i] == s[i])
 //@ func GleecePipeline.reduceControllers props C13,C19,C14 havocs
 //@ requires forall(k, 0, len(controllers), controllers[k].Struct.Annotations != nil)
+//@ requires forall(k, 0, len(controllers), forall(j, 0, len(controllers[k].Receivers), controllers[k].Receivers[j].Annotations != nil))
 //@ loop 0 invariant forall(k, 0, len(controllers), controllers[k].Struct.Annotations != nil)
+//@ loop 0 invariant forall(k, 0, len(controllers), forall(j, 0, len(controllers[k].Receivers), controllers[k].Receivers[j].Annotations != nil))
 // (stated for the moment the loop is entered - i.e. an assertion on what the sort established; the reductions
 // themselves may change any heap)
 //@ loop 0 invariant implies(_n == 0, forall(i, 0, len(controllers)-1, ctlBefore(controllers[i], controllers[i+1])))
